@@ -18,6 +18,7 @@ import (
 	"go/constant"
 	"go/token"
 	"go/types"
+	pathpkg "path"
 	"regexp"
 	"sort"
 	"strconv"
@@ -210,9 +211,9 @@ type Walker struct {
 	// net/url", are correlated with the emitters' own decisions).
 	InlineAllRuns bool
 	// FixRuns answers decisions of every new run (invariants of the input space).
-	FixRuns func(dk, constRepr string) (int, bool)
-	MaxDepth       int
-	RecLimit       int
+	FixRuns  func(dk, constRepr string) (int, bool)
+	MaxDepth int
+	RecLimit int
 }
 
 type ctl int
@@ -226,29 +227,31 @@ const (
 
 // Run is one word of the emission grammar.
 type Run struct {
-	W        *Walker
-	Dec      map[string]int // erased key -> arm (absent = 0)
-	Rotate   bool
-	Used     []DecUse
-	usedIdx  map[string]int
-	Units    []*Unit
-	Aborted  string   // non-empty: generation ends in an error on this path (no output)
-	Problems []string // constructs outside the modelled vocabulary
-	Trunc    int      // recursive emitter calls cut at the recursion limit
-	stack    []*types.Func
-	rets     []Val
-	fuel     int
-	structID int
-	pkgStack []*packages.Package
-	fnStack  []*types.Func
-	sigStack []*types.Signature
-	litPos   []token.Pos // call sites of Printer closures being expanded
+	W         *Walker
+	Dec       map[string]int // erased key -> arm (absent = 0)
+	Rotate    bool
+	Used      []DecUse
+	usedIdx   map[string]int
+	Units     []*Unit
+	Aborted   string   // non-empty: generation ends in an error on this path (no output)
+	Problems  []string // constructs outside the modelled vocabulary
+	Trunc     int      // recursive emitter calls cut at the recursion limit
+	stack     []*types.Func
+	rets      []Val
+	fuel      int
+	structID  int
+	pkgStack  []*packages.Package
+	fnStack   []*types.Func
+	sigStack  []*types.Signature
+	litPos    []token.Pos // call sites of Printer closures being expanded
 	startArgs map[string]Val
 	// Fix answers decisions from outside (E5: a field shape); ok=false leaves
 	// the decision to the exploration. dk is "b:<key>", "v:<key>" or "n:<key>".
 	Fix func(dk string, constRepr string) (ans int, ok bool)
 	// Result of the root function (Start).
 	Result Val
+	// Inject replaces symbolic values (by provenance key) with given values.
+	Inject map[string]Val
 	// FollowSlices: also follow helpers that build and return a slice (conflict detectors).
 	FollowSlices bool
 	// Assigned records assignments to fields (x.F = v) in execution order.
@@ -906,6 +909,25 @@ func (r *Run) rangeStmt(s *ast.RangeStmt, env *Env) ctl {
 			elemT = types.Typ[types.Rune]
 		}
 	}
+	if sv, ok := xv.(VStr); ok {
+		if cs, ok := sv.isConst(); ok && cs != "" && len(cs) < 64 {
+			for i, ch := range cs {
+				e2 := newEnv(env)
+				if id, ok := s.Key.(*ast.Ident); ok && id.Name != "_" {
+					e2.define(info.ObjectOf(id), VInt{N: int64(i)})
+				}
+				if id, ok := s.Value.(*ast.Ident); ok && id.Name != "_" {
+					e2.define(info.ObjectOf(id), VInt{N: int64(ch)})
+				}
+				if c := r.block(s.Body.List, e2); c == ctlBreak {
+					break
+				} else if c == ctlReturn {
+					return c
+				}
+			}
+			return ctlNone
+		}
+	}
 	elems := r.listElems(xv, s.Pos(), elemT)
 	for i, el := range elems {
 		e2 := newEnv(env)
@@ -1224,7 +1246,21 @@ func sameClass(a, b Val) bool {
 
 // ---------------------------------------------------------------- expressions
 
+// eval evaluates an expression; symbolic results whose provenance key is in
+// Inject are replaced by the injected (constant) value.
 func (r *Run) eval(e ast.Expr, env *Env) Val {
+	v := r.evalRaw(e, env)
+	if r.Inject != nil {
+		if sv, ok := v.(VSym); ok {
+			if iv, ok := r.Inject[eraseIters(sv.Key)]; ok {
+				return iv
+			}
+		}
+	}
+	return v
+}
+
+func (r *Run) evalRaw(e ast.Expr, env *Env) Val {
 	info := r.info()
 	if !r.tick(e.Pos()) {
 		return VNil{}
@@ -1240,6 +1276,11 @@ func (r *Run) eval(e ast.Expr, env *Env) Val {
 		if x.Kind == token.STRING {
 			s, _ := strconv.Unquote(x.Value)
 			return constStr(s)
+		}
+		if x.Kind == token.CHAR {
+			if c, _, _, err := strconv.UnquoteChar(strings.Trim(x.Value, "'"), '\''); err == nil {
+				return VInt{N: int64(c), Label: x.Value}
+			}
 		}
 		return VSym{Key: x.Value}
 	case *ast.Ident:
@@ -1337,6 +1378,29 @@ func (r *Run) eval(e ast.Expr, env *Env) Val {
 		return VSym{Key: base.key() + "[" + idx.key() + "]", Typ: t}
 	case *ast.SliceExpr:
 		base := r.eval(x.X, env)
+		if bs, ok := base.(VStr); ok {
+			if c, ok := bs.isConst(); ok {
+				lo, hi := 0, len(c)
+				okIdx := true
+				if x.Low != nil {
+					if iv, ok := r.eval(x.Low, env).(VInt); ok {
+						lo = int(iv.N)
+					} else {
+						okIdx = false
+					}
+				}
+				if x.High != nil {
+					if iv, ok := r.eval(x.High, env).(VInt); ok {
+						hi = int(iv.N)
+					} else {
+						okIdx = false
+					}
+				}
+				if okIdx && lo >= 0 && hi <= len(c) && lo <= hi {
+					return constStr(c[lo:hi])
+				}
+			}
+		}
 		k := base.key() + "["
 		if x.Low != nil {
 			k += r.eval(x.Low, env).key()
@@ -1514,6 +1578,19 @@ func (r *Run) call(call *ast.CallExpr, env *Env) Val {
 			if sv, ok := v.(VSym); ok {
 				return VSym{Key: sv.Key, Typ: tv.Type}
 			}
+			if l, ok := v.(VList); ok && l.Key == "bytes" {
+				// string([]byte{…}) of concrete bytes
+				if bt, ok := tv.Type.Underlying().(*types.Basic); ok && bt.Info()&types.IsString != 0 {
+					var b []byte
+					for _, e := range l.Elems {
+						b = append(b, byte(e.(VInt).N))
+					}
+					return constStr(string(b))
+				}
+			}
+			if iv, ok := v.(VInt); ok {
+				return VInt{N: iv.N}
+			}
 			return v
 		}
 		return VSym{Key: types.ExprString(call), Typ: tv.Type}
@@ -1561,6 +1638,25 @@ func (r *Run) call(call *ast.CallExpr, env *Env) Val {
 			}
 		case "strings":
 			if v, ok := r.foldStrings(fn.Name(), call, env); ok {
+				return v
+			}
+			if fn.Name() == "Split" && len(call.Args) == 2 {
+				if a, ok := r.eval(call.Args[0], env).(VStr); ok {
+					if b, ok := r.eval(call.Args[1], env).(VStr); ok {
+						if ac, ok := a.isConst(); ok {
+							if bc, ok := b.isConst(); ok {
+								l := VList{Key: "split", Elems: []Val{}}
+								for _, p := range strings.Split(ac, bc) {
+									l.Elems = append(l.Elems, constStr(p))
+								}
+								return l
+							}
+						}
+					}
+				}
+			}
+		case "path":
+			if v, ok := r.foldStrings("path."+fn.Name(), call, env); ok {
 				return v
 			}
 		case "strconv":
@@ -1846,6 +1942,10 @@ func (r *Run) foldStrings(name string, call *ast.CallExpr, env *Env) (Val, bool)
 		return VBool{B: strings.EqualFold(cs[0], cs[1])}, true
 	case name == "ReplaceAll" && len(cs) == 3:
 		return constStr(strings.ReplaceAll(cs[0], cs[1], cs[2])), true
+	case name == "path.Join":
+		return constStr(pathpkg.Join(cs...)), true
+	case name == "path.Clean" && len(cs) == 1:
+		return constStr(pathpkg.Clean(cs[0])), true
 	}
 	return nil, false
 }
@@ -1878,6 +1978,23 @@ func (r *Run) builtin(name string, call *ast.CallExpr, env *Env, rt types.Type) 
 		return VSym{Key: "len(" + v.key() + ")", Typ: rt}
 	case "append":
 		args := r.args(call, env)
+		// concrete bytes appended to a nil / concrete byte slice stay concrete
+		if len(args) > 1 && !call.Ellipsis.IsValid() {
+			allInt := true
+			for _, a := range args[1:] {
+				if _, ok := a.(VInt); !ok {
+					allInt = false
+				}
+			}
+			if allInt {
+				if _, isNil := args[0].(VNil); isNil {
+					return VList{Key: "bytes", Elems: append([]Val{}, args[1:]...)}
+				}
+				if l, ok := args[0].(VList); ok && l.Key == "bytes" {
+					return VList{Key: "bytes", Elems: append(append([]Val{}, l.Elems...), args[1:]...)}
+				}
+			}
+		}
 		// append to a known list of known elements stays known
 		if l, ok := args[0].(VList); ok && l.Elems != nil && !call.Ellipsis.IsValid() {
 			nl := VList{Key: l.Key, Elems: append(append([]Val{}, l.Elems...), args[1:]...)}
